@@ -24,6 +24,11 @@ def _name():
     return gen.plain_ident(min_len=2, max_len=7)
 
 
+def _dqlit():
+    """a double-quoted value as MySQL / BigQuery scripts write them, possibly holding an apostrophe"""
+    return st.tuples(st.sampled_from(["user", "it", "x1", "Orders", "a b"]), st.sampled_from(["'s data", " table", "", "'", " o'clock x"])).map(lambda t: '"%s%s"' % t)
+
+
 def _kwname():
     kws = [k for k in gen.GRAMMAR_KEYWORDS if k not in gen.C06_EXCLUDED]
     return st.tuples(st.sampled_from(kws), st.integers(0, 2)).map(lambda t: [t[0], t[0].lower(), t[0].capitalize()][t[1]])
@@ -56,7 +61,7 @@ def _args_strategies():
     S["mysql.engine"] = ("mysql", "engine", st.fixed_dictionaries({"v": st.sampled_from(WORDS[:2]), "sp": st.booleans()}))
     S["mysql.default_charset"] = ("mysql", "charset", st.fixed_dictionaries({"v": st.sampled_from(WORDS[2:5]), "sp": st.booleans()}))
     S["mysql.auto_increment"] = ("mysql", "autoinc", st.fixed_dictionaries({"n": st.integers(0, 10**6), "sp": st.booleans()}))
-    S["mysql.comment"] = ("mysql", "comment", st.fixed_dictionaries({"text": _lit()}))
+    S["mysql.comment"] = ("mysql", "comment", st.fixed_dictionaries({"text": st.one_of(_lit(), _dqlit())}))
     S["oracle.organization_index"] = ("oracle", "orgindex", st.fixed_dictionaries({}))
     S["oracle.tablespace"] = ("oracle", "tablespace", st.fixed_dictionaries({"name": _name()}))
     S["oracle.storage"] = ("oracle", "storage", st.fixed_dictionaries({
@@ -79,7 +84,7 @@ def _args_strategies():
                                     st.sampled_from(["PAGE", "OFF", "ON", "80", "ROW"])), min_size=1, max_size=3, unique_by=lambda kv: kv[0])}))
     S["bigquery.options"] = ("bigquery", "options", st.fixed_dictionaries({
         "kv": st.lists(st.tuples(st.sampled_from(["description", "friendly_name", "expiration_days", "kms_key_name", "labels_x"]),
-                                 st.one_of(_lit(), st.integers(0, 999).map(str))), min_size=1, max_size=3, unique_by=lambda kv: kv[0])}))
+                                 st.one_of(_lit(), _dqlit(), st.integers(0, 999).map(str))), min_size=1, max_size=3, unique_by=lambda kv: kv[0])}))
     S["bigquery.partition_by"] = ("bigquery", "partition", st.fixed_dictionaries({"col": _name(), "fn": st.sampled_from([None, "DATE", "DATE_TRUNC", "TIMESTAMP_TRUNC"]),
                                                                                   "by": st.sampled_from(["MONTH", "DAY", "YEAR", "HOUR"])}))
     S["bigquery.cluster_by"] = ("bigquery", "cluster", st.fixed_dictionaries({"cols": st.integers(1, 3), "paren": st.booleans()}))
@@ -198,7 +203,7 @@ def clause(inst, colnames):
         return (K("WITH") + plist([[V(k), EQ, V(v)] for k, v in a["props"]]), "top",
                 {"with": {"properties": [{"name": k, "value": v} for k, v in a["props"]], "on": None}})
     if cid == "bigquery.options":
-        return (K("OPTIONS") + plist([[V(k), ("=", "G"), (L(v) if v.startswith("'") else N(v))] for k, v in a["kv"]]), "top",
+        return (K("OPTIONS") + plist([[V(k), ("=", "G"), (L(v) if v[:1] in "'\"" else N(v))] for k, v in a["kv"]]), "top",
                 {"options": [{k: v} for k, v in a["kv"]]})
     if cid == "bigquery.partition_by":
         toks = K("PARTITION", "BY")
